@@ -212,6 +212,15 @@ class SuperSpeedStreamInEndpoint(Elaboratable):
         ack_received      = handshakes_in.ack_received & is_to_us
         in_token_received = ack_received & is_in_token
 
+        # Our packet parameters are latched by the link layer when the packet (or ZLP) starts, which can be
+        # outside of SEND_PACKET; so we provide them continuously.
+        m.d.comb += [
+            interface.tx_direction          .eq(USBDirection.IN),
+            interface.tx_sequence_number    .eq(sequence_number),
+            interface.tx_length             .eq(read_fill_count),
+            interface.tx_endpoint_number    .eq(self._endpoint_number),
+        ]
+
         with m.FSM(domain='ss'):
 
             # WAIT_FOR_DATA -- We don't yet have a full packet to transmit, so  we'll capture data
@@ -298,14 +307,6 @@ class SuperSpeedStreamInEndpoint(Elaboratable):
             # SEND_PACKET -- we now have enough data to send _and_ have received an IN token.
             # We can now send our data over to the host.
             with m.State("SEND_PACKET"):
-
-                m.d.comb += [
-                    # Apply our general transfer information.
-                    interface.tx_direction        .eq(USBDirection.IN),
-                    interface.tx_sequence_number  .eq(sequence_number),
-                    interface.tx_length           .eq(read_fill_count),
-                    interface.tx_endpoint_number  .eq(self._endpoint_number),
-                ]
 
                 with m.If(~out_stream.valid.any() | out_stream.ready):
                     # Once we emitted a word of data for our receiver, move to the next word in our packet.
